@@ -129,6 +129,8 @@ type FA struct {
 	Dead     map[*ssa.BasicBlock]bool // blocks unreachable under closed-world assumptions
 	DeadWhy  []string
 	prepared bool
+	EntryWhy []string // caller-derived entry facts (closed world), for the evidence
+	postMemo map[*ssa.Call][]Fact
 }
 
 // NewFA prepares the analysis of fn.
@@ -145,6 +147,7 @@ func (c *Ctx) NewFA(fn *ssa.Function) *FA {
 	f.CallRange = c.callRange
 	f.CallLen = c.callLen
 	f.computeLoadClasses()
+	f.injectCallerFacts()
 	return f
 }
 
@@ -661,10 +664,31 @@ func (f *FA) vname(v ssa.Value) string {
 }
 
 // phiLF handles integer φ-nodes: the induction-variable rule of DESIGN 3.2.
+// predDead: the i-th incoming edge of block b is never taken under the closed-world assumptions: its
+// source block is dead, or the source ends in a branch whose condition is decided the other way.
+func (f *FA) predDead(b *ssa.BasicBlock, i int) bool {
+	p := b.Preds[i]
+	if f.Dead[p] {
+		return true
+	}
+	iff, ok := p.Instrs[len(p.Instrs)-1].(*ssa.If)
+	if !ok || p.Succs[0] == p.Succs[1] {
+		return false
+	}
+	val, _, known := f.C.condKnown(iff.Cond)
+	if !known {
+		return false
+	}
+	if val {
+		return p.Succs[1] == b
+	}
+	return p.Succs[0] == b
+}
+
 func (f *FA) liveEdges(x *ssa.Phi) []ssa.Value {
 	var out []ssa.Value
 	for i, e := range x.Edges {
-		if !f.Dead[x.Block().Preds[i]] {
+		if !f.predDead(x.Block(), i) {
 			out = append(out, e)
 		}
 	}
@@ -705,6 +729,20 @@ func (f *FA) phiLF(x *ssa.Phi, tlo, thi int64) LF {
 					continue
 				}
 			}
+			// a variable, provably non-negative and small step that does not depend on the φ itself
+			// (offset += int(payloadLength)): a count-up whose largest step is the step's upper bound
+			if b.Op == token.ADD && !dependsOnValue(b.Y, x, 0) {
+				if _, _, isInt := f.typeRange(b.Y.Type()); isInt {
+					e := f.refine(f.FactsAt(x.Block().Preds[i]))
+					slo, shi := f.bounds(f.LFOf(b.Y), e)
+					if slo >= 0 && shi <= 1<<20 {
+						okDown = okDown && shi == 0
+						steps = append(steps, shi)
+						backs = append(backs, i)
+						continue
+					}
+				}
+			}
 		}
 		okUp, okDown = false, false
 	}
@@ -712,7 +750,7 @@ func (f *FA) phiLF(x *ssa.Phi, tlo, thi int64) LF {
 		// not an induction variable: a merge of values; interval join of the incoming edges
 		lo2, hi2 := int64(INF), int64(-INF)
 		for i, e := range x.Edges {
-			if f.Dead[x.Block().Preds[i]] {
+			if f.predDead(x.Block(), i) {
 				continue
 			}
 			if e == ssa.Value(x) {
@@ -811,6 +849,36 @@ func (f *FA) phiLF(x *ssa.Phi, tlo, thi int64) LF {
 	}
 	// a signed count-down could wrap below; keep the type's lower bound
 	return f.atomLF(key, x.Name(), lo, hi)
+}
+
+// dependsOnValue: v is computed (through arithmetic, conversions, φ) from target.
+func dependsOnValue(v, target ssa.Value, depth int) bool {
+	if v == target {
+		return true
+	}
+	if depth > 8 {
+		return true // unknown: assume it does
+	}
+	switch e := v.(type) {
+	case *ssa.BinOp:
+		return dependsOnValue(e.X, target, depth+1) || dependsOnValue(e.Y, target, depth+1)
+	case *ssa.UnOp:
+		return dependsOnValue(e.X, target, depth+1)
+	case *ssa.Convert:
+		return dependsOnValue(e.X, target, depth+1)
+	case *ssa.ChangeType:
+		return dependsOnValue(e.X, target, depth+1)
+	case *ssa.Phi:
+		for _, ed := range e.Edges {
+			if dependsOnValue(ed, target, depth+2) {
+				return true
+			}
+		}
+		return false
+	case *ssa.Const, *ssa.Parameter, *ssa.Call, *ssa.Extract:
+		return false
+	}
+	return true
 }
 
 // boundedAbove reports whether at block b some dominating fact implies atom id <= maxLen.
@@ -970,7 +1038,7 @@ func (f *FA) sliceLen0(v ssa.Value) LF {
 		if !sliceDependsOn(x, x, map[ssa.Value]bool{}) {
 			lo, hi := int64(INF), int64(-INF)
 			for i, e := range x.Edges {
-				if f.Dead[x.Block().Preds[i]] {
+				if f.predDead(x.Block(), i) {
 					continue
 				}
 				blo, bhi := f.bounds(f.SliceLen(e), nil)
@@ -1129,6 +1197,9 @@ func (f *FA) FactsAt(b *ssa.BasicBlock) []Fact {
 			p := x.Preds[0]
 			if iff, ok := p.Instrs[len(p.Instrs)-1].(*ssa.If); ok && p.Succs[0] != p.Succs[1] {
 				f.condFacts(iff.Cond, p.Succs[0] == x, &out)
+				if call, nilOnTrue, ok := errEdgeCall(iff.Cond); ok && nilOnTrue == (p.Succs[0] == x) {
+					out = append(out, f.callPost(call)...)
+				}
 			}
 		}
 	}
